@@ -234,6 +234,94 @@ theorem plain_name_opens (fs : FS) (cwd : RPath) (dest loc name : Str)
   simp only [PathMap.open, hm]
   exact openAt_plain_name fs cwd dest name _ hw hdne hcne h47 hne hd hdd hnd
 
+/-! ### histories: many objects, many writers, calls in any order -/
+
+/-- **C05 over histories.**  One builder (`dest` accepted by `ObjectWriterFSBuilder::new` in the initial filesystem),
+    ANY number of object writers obtained from it (any Content-Locations, any parser answers - colliding, nested,
+    unmappable), and ANY sequence of calls `open` / `write` / `complete` / `error` / `interrupted` on them, in any
+    order and interleaving - protocol-conforming or not (`open; open`, `complete; error`, `error` on a writer that was
+    never opened or whose `open` failed, calls after a terminal call, ...).  Then
+    * every path effect of the whole history (directory created, file created, truncated, removed) is strictly below
+      `resolve dest`;
+    * the final filesystem differs from the initial one only strictly below `resolve dest`;
+    * `dest` is still accepted by the builder's check afterwards (so the statement composes with itself). -/
+theorem history_confined (fs0 : FS) (cwd : RPath) (dest : Str) (hb : builderNew fs0 cwd dest = true)
+    (ops : List HOp) :
+    (∀ e ∈ (hrun cwd dest ⟨fs0, []⟩ ops).2, Under (resolve cwd dest) e.path) ∧
+    (∀ q, (hrun cwd dest ⟨fs0, []⟩ ops).1.fs q ≠ fs0 q → Under (resolve cwd dest) q) ∧
+    builderNew (hrun cwd dest ⟨fs0, []⟩ ops).1.fs cwd dest = true := by
+  obtain ⟨hdne, hw⟩ := builder_dest fs0 cwd dest hb
+  have hcne : components dest ≠ [] := by
+    intro h; unfold builderNew isDirC at hb; simp [h] at hb
+  have hi : SysInv cwd dest (resolve cwd dest) ⟨fs0, []⟩ := ⟨hw, by intro w h; cases h⟩
+  obtain ⟨⟨g1, _⟩, g2, g3⟩ := hrun_conf cwd dest _ hdne ops _ hi
+  exact ⟨g3, g2, isDirC_of_walk _ cwd _ _ hcne g1⟩
+
+/-- **The writer's own state.**  In ANY filesystem: `error` / `interrupted` on a writer whose `inner.destination` is
+    `None` - never opened (Drop of an Idle object), `open` failed, already completed (`complete; error`), already
+    errored (`error; error`) - has no effect at all; `complete` and `write` never have a path effect; and both
+    `complete` and `error` leave `inner.destination = None`. -/
+theorem calls_without_destination_do_nothing (fs : FS) (cwd : RPath) (dest : Str) (w : Writer) :
+    (w.destination = none →
+      callWriter fs cwd dest w .error = (fs, w, [], true) ∧
+      callWriter fs cwd dest w .interrupted = (fs, w, [], true)) ∧
+    (callWriter fs cwd dest w .complete).1 = fs ∧ (callWriter fs cwd dest w .complete).2.2.1 = [] ∧
+    (callWriter fs cwd dest w .write) = (fs, w, [], true) ∧
+    (callWriter fs cwd dest w .complete).2.1.destination = none ∧
+    (callWriter fs cwd dest w .error).2.1.destination = none ∧
+    (callWriter fs cwd dest w .interrupted).2.1.destination = none := by
+  refine ⟨?_, rfl, rfl, rfl, rfl, ?_, ?_⟩
+  · intro h
+    constructor <;> simp [callWriter, h]
+  · simp only [callWriter]
+    cases hd : w.destination with
+    | none => exact hd
+    | some dst => simp only []; cases unlink fs cwd dst <;> rfl
+  · simp only [callWriter]
+    cases hd : w.destination with
+    | none => exact hd
+    | some dst => simp only []; cases unlink fs cwd dst <;> rfl
+
+/-- **What `error` removes, whenever it is called**: in any later filesystem in which `dest` is still the directory it
+    was (other writers may have created and removed entries in between), the only path `error` / `interrupted` can
+    remove is the lexical resolution of the destination this same writer stored at its last successful `open`. -/
+theorem error_removes_only_own_destination (fs : FS) (cwd : RPath) (dest : Str) (w : Writer)
+    (hb : builderNew fs cwd dest = true) (rel : Str) (hrel : relOk rel = true)
+    (hd : w.destination = some (join dest rel)) (g : RPath) (c : Call) (hc : c = .error ∨ c = .interrupted)
+    (hg : Effect.remove g ∈ (callWriter fs cwd dest w c).2.2.1) :
+    g = resolve cwd (join dest rel) ∧ Under (resolve cwd dest) g ∧ (callWriter fs cwd dest w c).2.2.1 = [.remove g] := by
+  obtain ⟨hdne, hw⟩ := builder_dest fs cwd dest hb
+  have hcw : callWriter fs cwd dest w c =
+      (match unlink fs cwd (join dest rel) with
+        | .ok (fs', g) => (fs', { w with destination := none }, [.remove g], true)
+        | .error _ => (fs, { w with destination := none }, [], true)) := by
+    rcases hc with h | h <;> subst h <;> simp only [callWriter, hd] <;>
+      (cases unlink fs cwd (join dest rel) <;> rfl)
+  rw [hcw] at hg ⊢
+  cases hu : unlink fs cwd (join dest rel) with
+  | error e => simp [hu] at hg
+  | ok v =>
+    obtain ⟨fs', g'⟩ := v
+    simp only [hu, List.mem_singleton, Effect.remove.injEq] at hg ⊢
+    subst hg
+    obtain ⟨hug, hres, _, _⟩ := unlink_conf fs cwd dest rel _ hw hdne hrel fs' g hu
+    refine ⟨?_, hug, rfl⟩
+    rw [hres]
+    show resolveC (resolve cwd dest) (components rel) = resolveC cwd (components (join dest rel))
+    rw [components_join dest rel hdne hrel, resolveC_append]
+    rfl
+
+/-- non-vacuity of `history_confined` / a history the protocol forbids: object A at `x`, object B at `x/y`;
+    A opens (creates `/s/dest/x`), B's open fails (`x` is a file), A completes, A errors (removes nothing),
+    B errors (removes nothing), A opens again and is interrupted (removes `/s/dest/x`) -/
+example :
+    (hrun [] wdest ⟨wfs, []⟩
+      [.new [] (.ok [47, 120]), .new [] (.ok [47, 120, 47, 121]), .call 0 .open, .call 1 .open, .call 0 .complete,
+       .call 0 .error, .call 1 .error, .call 0 .open, .call 0 .interrupted]).2
+      = [.create [[115], [100, 101, 115, 116], [120]], .truncate [[115], [100, 101, 115, 116], [120]],
+         .remove [[115], [100, 101, 115, 116], [120]]] := by
+  decide
+
 /-! ### the defect (D9) on the code before the repair -/
 
 /-- a tiny filesystem: `/`, `/s`, `/s/dest` are directories -/
